@@ -119,6 +119,18 @@ def run(ctx: Ctx) -> None:
                     h = conn_h.get(lim.key()) or conn_h.setdefault(lim.key(), H.ConnHarness(lim))
                     g.conn(h, cutsets[-1])
                 acc.add(g)
+        # a line between two unequal limits anywhere in a pipeline; header blocks around the count limit x body kinds
+        for lim in lims:
+            if lim.max_line > 400 or lim.limit <= 16:
+                continue
+            for label, s, cutsets, mode in (G.between_limits_family(lim.max_line, lim.max_field)
+                                            + G.header_count_family(lim.max_headers)):
+                g = H.Group(mode, s, lim, src="limit-family", label=f"{label} limits={lim.key()}")
+                g.parse([], meter)
+                g.parse(G.byte_at_a_time(len(s)), meter)
+                for cs in cutsets:
+                    g.parse(cs, meter)
+                acc.add(g)
         # numbers with very many digits
         for label, s, mode in G.long_number_family():
             g = H.Group(mode, s, H.DEFAULT_LIMITS, src="long-number", label=label)
